@@ -34,6 +34,7 @@ Section BufProofs.
     | OWrite _ batch => rows ++ map (row_of schema) batch
     | OSwap i j => swapl rows i j
     | OPage => rows
+    | OPageCol _ => rows
     end.
 
   Definition spec_run (schema : list N) (ops : list (op V)) : list row :=
@@ -150,8 +151,8 @@ Section BufProofs.
     buf_inv schema sorting (apply_op V b o) (spec_step schema rows o).
   Proof.
     intros (Hs & Hl & Hr & Hc) Ho. unfold buf_inv.
-    destruct o as [typed batch|i j|]; simpl in *;
-      unfold buffer_write, buffer_swap, buffer_page; simpl.
+    destruct o as [typed batch|i j| |kc]; simpl in *;
+      unfold buffer_write, buffer_swap, buffer_page, buffer_page_col; simpl.
     - split; auto. split; [rewrite mapi_from_length; auto|]. split.
       + apply Forall_app; split; auto. apply Forall_map. eapply Forall_impl; [|exact Ho].
         intros wrow [Hw _]. apply row_of_length; auto.
@@ -168,6 +169,12 @@ Section BufProofs.
     - split; auto. split; [rewrite map_length; auto|]. split; auto.
       intros k Hk. rewrite (nth_map_in _ _ _ dcol) by lia.
       destruct (Hc k Hk) as [Hok Hcells].
+      destruct (col_page_spec _ _ _ Hok) as (Hok' & Hcells' & _).
+      split; auto. congruence.
+    - split; auto. split; [rewrite mapi_from_length; auto|]. split; auto.
+      intros k Hk. rewrite (nth_mapi_from _ _ _ _ dcol) by lia. simpl.
+      destruct (Hc k Hk) as [Hok Hcells].
+      destruct (Nat.eqb k kc); [|split; auto].
       destruct (col_page_spec _ _ _ Hok) as (Hok' & Hcells' & _).
       split; auto. congruence.
   Qed.
@@ -250,9 +257,10 @@ Section BufProofs.
   Proof.
     induction ops as [|o ops IH]; intros rows; simpl.
     - now rewrite app_nil_r.
-    - eapply perm_trans; [apply IH|]. destruct o as [typed batch|i j|]; simpl.
+    - eapply perm_trans; [apply IH|]. destruct o as [typed batch|i j| |kc]; simpl.
       + now rewrite app_assoc.
       + apply Permutation_app_tail, swapl_perm.
+      + auto.
       + auto.
   Qed.
 
